@@ -310,9 +310,19 @@ func (s *StateMachine) ApplyTransactions(ctx context.Context, txs [][]byte, r *l
 	}
 	// set the store back to the original at the end of processing
 	originalStore := s.Store().(lib.StoreI)
-	defer s.SetStore(originalStore)
 	// create a variable to track if the block is over size
 	var oversize bool
+	// trackers as they were before the first oversize transaction was executed
+	var preOversizeSlashTracker *SlashTracker
+	defer func() {
+		s.SetStore(originalStore)
+		// the oversize transactions ran in a store transaction that is dropped here; what they left in the caches and
+		// trackers must go with it, or the end of the block would be computed on top of transactions that are not in it
+		if oversize {
+			s.ResetCaches()
+			s.slashTracker = preOversizeSlashTracker
+		}
+	}()
 	var executeDuration, flushDuration time.Duration
 	// iterates over each transaction in the block
 	for i, tx := range txs {
@@ -341,6 +351,7 @@ func (s *StateMachine) ApplyTransactions(ctx context.Context, txs [][]byte, r *l
 			}
 			// set oversize to 'true'
 			oversize = true
+			preOversizeSlashTracker = s.slashTracker.Clone()
 			// wrap the store in a 'database transaction' to rollback all the 'oversize transactions'
 			if _, e := s.TxnWrap(); e != nil {
 				return e
